@@ -86,6 +86,44 @@ static void scen_defaults(struct scen *sc, struct rng *r)
 /* ------------------------------------------------------------------ scenario execution */
 static struct rtr_socket OTHER1, OTHER2;
 
+/* C18, synchronisations: the client reports ESTABLISHED although an allocation was made to fail earlier in the
+ * conversation - whatever that allocation was for must have been given up cleanly: both tables still take and release
+ * a record.  Run at the first ESTABLISHED after the injection (on the FSM thread, no table lock is held there) and once
+ * more at the end of the scenario. */
+static void alloc_recovery_probe(struct sim *s)
+{
+	struct spki_record kr;
+	struct pfx_record pr;
+	int a, b;
+
+	if (!ALLOC_MODE || !AM.failures_injected)
+		return;
+	AM.paused = true;
+	memset(&kr, 0, sizeof(kr));
+	kr.asn = 4242424242u;
+	memset(kr.ski, 0xEE, SKI_SIZE);
+	memset(kr.spki, 0x11, SPKI_SIZE);
+	kr.socket = &OTHER1;
+	a = spki_table_add_entry(s->spkit, &kr);
+	b = spki_table_remove_entry(s->spkit, &kr);
+	CNT("c18/sync/table_probes_after_recovery");
+	if (a != SPKI_SUCCESS || b != SPKI_SUCCESS)
+		viol("C18", "C18:sync:key-table-unusable-after-recovered-failure", "the client is ESTABLISHED after the injected allocation failure, but the router-key table refuses a record: add %d, remove %d",
+		     a, b);
+	memset(&pr, 0, sizeof(pr));
+	pr.asn = 4242424242u;
+	pr.prefix.ver = LRTR_IPV4;
+	pr.prefix.u.addr4.addr = 0xCB007100u;
+	pr.min_len = pr.max_len = 24;
+	pr.socket = &OTHER1;
+	a = pfx_table_add(s->pfxt, &pr);
+	b = pfx_table_remove(s->pfxt, &pr);
+	if (a != PFX_SUCCESS || b != PFX_SUCCESS)
+		viol("C18", "C18:sync:prefix-table-unusable-after-recovered-failure", "the client is ESTABLISHED after the injected allocation failure, but the prefix table refuses a record: add %d, remove %d",
+		     a, b);
+	AM.paused = false;
+}
+
 static int run_scen(struct scen *sc, uint64_t seed, struct sim *keep)
 {
 	static struct sim S; /* large: static, one scenario at a time */
@@ -103,6 +141,7 @@ static int run_scen(struct scen *sc, uint64_t seed, struct sim *keep)
 		am_reset();
 		AM.fail_at = ALLOC_FAIL_AT;
 		am_install();
+		SIM_ON_ESTABLISHED = alloc_recovery_probe;
 	}
 	universe_build(&U, &r, sc->np, sc->nk);
 	sim_init(s, &U, &sc->cfg, seed ^ 0xabcdef);
@@ -119,11 +158,15 @@ static int run_scen(struct scen *sc, uint64_t seed, struct sim *keep)
 	bs_zero(&k);
 	for (int i = 0; i < sc->init_records && s->cache.announce_cap > 0; i++)
 		bs_set(&p, (int)rndn(&r, (uint32_t)s->cache.announce_cap));
-	for (int i = 0; i < (sc->init_keys ? sc->init_keys : sc->init_records / 4) && U.nk; i++)
+	for (int i = 0; i < (sc->init_keys < 0 ? 0 : sc->init_keys ? sc->init_keys : sc->init_records / 4) && U.nk; i++)
 		bs_set(&k, (int)rndn(&r, (uint32_t)U.nk));
 	sim_cache_push_dataset(s, &p, &k);
 
 	memset(&sock, 0, sizeof(sock));
+	/* the application's own table initialisation is not part of the enumeration: spki_table_init() returns void and
+	 * cannot say that its first bucket vector could not be had */
+	if (ALLOC_MODE)
+		AM.paused = true;
 	if (sc->callbacks) {
 		cblog_install(s, &cb);
 		pfx_table_init(&pfxt, sim_pfx_cb);
@@ -132,6 +175,8 @@ static int run_scen(struct scen *sc, uint64_t seed, struct sim *keep)
 		pfx_table_init(&pfxt, NULL);
 		spki_table_init(&spkit, NULL);
 	}
+	if (ALLOC_MODE)
+		AM.paused = false;
 	sim_attach(s, &sock, &pfxt, &spkit);
 	if (sc->cfg.others)
 		sim_populate_others(s, &OTHER1, &OTHER2);
@@ -170,6 +215,8 @@ static int run_scen(struct scen *sc, uint64_t seed, struct sim *keep)
 		sim_final_convergence_check(s);
 	cblog_check_against_tables(s, "end-of-scenario");
 	sim_check_others(s, "end-of-scenario");
+	if (ALLOC_MODE && sock.state == RTR_ESTABLISHED)
+		alloc_recovery_probe(s);
 	cnt_max("max:sim/queries_in_one_scenario", (uint64_t)s->queries);
 	cnt_add("sim/queries", (uint64_t)s->queries);
 	cnt_add("sim/transport_calls", (uint64_t)s->tcalls);
@@ -730,20 +777,47 @@ static void gen_alloc_undo_base(struct scen *sc, struct rng *r)
 	sc->final_convergence = true;
 }
 
+/* a cache that has no router keys at first: the reload after its Cache Reset builds the shadow key table without
+ * copying or adding a single key - whatever goes wrong with that table then shows only when keys arrive later */
+static void gen_alloc_keyless_base(struct scen *sc, struct rng *r)
+{
+	scen_defaults(sc, r);
+	sc->np = 40;
+	sc->nk = 8;
+	sc->init_records = 20 + (int)rndn(r, 10);
+	sc->init_keys = -1;
+	sc->cfg.others = false;
+	sc->cfg.refresh = 30 + rndn(r, 50);
+	sc->cfg.retry = 1 + rndn(r, 5);
+	sc->cfg.expire = 600 + rndn(r, 600);
+	sc->cfg.chunk_rx = CH_MAX;
+	sc->cfg.chunk_tx = CH_MAX;
+	for (int i = 0; i < 5; i++)
+		sc->cfg.xplan[i].pos = -1;
+	add_event(&sc->cfg, 2, 2, 0);
+	sc->cfg.xplan[1].override = AO_CACHE_RESET;
+	add_event(&sc->cfg, (time_t)sc->cfg.refresh + 10, 1, SIM_ADD_KEYS);
+	add_event(&sc->cfg, 2 * (time_t)sc->cfg.refresh + 20, 1, 6);
+	sc->cfg.nxplan = 5;
+	sc->final_convergence = true;
+}
+
 static long ALLOC_UNDO_ONLY; /* argument undo_only=1: rollback conversations only (C03's own run) */
 static long ALLOC_BASE_ID;
 
 static void gen_allocsync(struct scen *sc, struct rng *r, long c, uint64_t seed)
 {
-	long base_id = ALLOC_UNDO_ONLY ? 2 * (c / 1024) + 1 : c / 1024, slot = c % 1024;
+	long base_id = ALLOC_UNDO_ONLY ? 3 * (c / 1024) + 1 : c / 1024, slot = c % 1024;
 	struct rng rb;
 	static struct sim dry;
 
 	(void)r;
 	ALLOC_BASE_ID = base_id;
 	rng_seed(&rb, seed ^ 0xa110c, (uint64_t)base_id);
-	if (base_id % 2)
+	if (base_id % 3 == 1)
 		gen_alloc_undo_base(sc, &rb);
+	else if (base_id % 3 == 2)
+		gen_alloc_keyless_base(sc, &rb);
 	else
 		gen_alloc_base(sc, &rb);
 	if (slot >= 1000) {
@@ -768,7 +842,7 @@ static void gen_allocsync(struct scen *sc, struct rng *r, long c, uint64_t seed)
 	unsigned long n = ALLOC_REQUESTS ? ALLOC_REQUESTS : 1;
 
 	ALLOC_FAIL_AT = 1 + (unsigned long)slot * n / 1000;
-	cnt_max(base_id % 2 ? "max:c18/sync/allocations_in_rollback_conversation" : "max:c18/sync/allocations_in_base_conversation", n);
+	cnt_max(base_id % 3 == 1 ? "max:c18/sync/allocations_in_rollback_conversation" : base_id % 3 == 2 ? "max:c18/sync/allocations_in_keyless_conversation" : "max:c18/sync/allocations_in_base_conversation", n);
 }
 
 /* ------------------------------------------------------------------ C04: byte-stream fuzzing */
